@@ -113,7 +113,8 @@ class Ctx:
         return (quick if self.tier == "quick" else thorough) * self.search_boost
 
     def elapsed(self) -> float:
-        return time.time() - self.t0
+        """seconds since the property module's run() started (build and audit time excluded)"""
+        return time.time() - getattr(self, "t_run", self.t0)
 
     # ------------------------------------------------------------------ accounting
     def case(self, key=None, sample=None, **dist):
@@ -371,6 +372,7 @@ def run_check(pid: str, tier: str, seed: int, replay: str | None) -> int:
                 ctx.lean_checker()
         if ctx.proof_breaks:
             ctx.search_boost = 4
+        ctx.t_run = time.time()
         if replay:
             case = json.load(open(replay))
             if hasattr(mod, "replay"):
